@@ -502,6 +502,10 @@ impl<T: Types> RaftLog<T> {
         &mut self,
         rec: &WALRecord<T>,
     ) -> Result<Segment, io::Error> {
+        // Validate against the current state first: a record that is going to
+        // be refused must neither be journalled nor touch the index and cache.
+        self.state_machine.log_state.clone().apply(rec)?;
+
         WAL::append(&mut self.wal, rec)?;
         StateMachine::apply(
             &mut self.state_machine,
